@@ -325,11 +325,11 @@ func Structures() []Entry {
 					}),
 					depKey([]schema.LabelDependent{lbl(0, "gcp")}, nil): markerBody("m_gcp", nil),
 					// label values holding characters JSON escapes (<, >, &) or Go considers non-printable (no-break space)
-					depKey([]schema.LabelDependent{lbl(0, "a&b<c>")}, nil):  markerBody("m_amp", nil),
+					depKey([]schema.LabelDependent{lbl(0, "a&b<c>")}, nil): markerBody("m_amp", nil),
 					// bodies that have only a description, only a detail, neither
-					depKey([]schema.LabelDependent{lbl(0, "onlydesc")}, nil):   {Description: lang.Markdown("only a description"), Attributes: map[string]*schema.AttributeSchema{"m_od": strAttr(nil)}},
-					depKey([]schema.LabelDependent{lbl(0, "onlydetail")}, nil): {Detail: "only-a-detail", Attributes: map[string]*schema.AttributeSchema{"m_ot": strAttr(nil)}},
-					depKey([]schema.LabelDependent{lbl(0, "neither")}, nil):    {Attributes: map[string]*schema.AttributeSchema{"m_no": strAttr(nil)}},
+					depKey([]schema.LabelDependent{lbl(0, "onlydesc")}, nil):    {Description: lang.Markdown("only a description"), Attributes: map[string]*schema.AttributeSchema{"m_od": strAttr(nil)}},
+					depKey([]schema.LabelDependent{lbl(0, "onlydetail")}, nil):  {Detail: "only-a-detail", Attributes: map[string]*schema.AttributeSchema{"m_ot": strAttr(nil)}},
+					depKey([]schema.LabelDependent{lbl(0, "neither")}, nil):     {Attributes: map[string]*schema.AttributeSchema{"m_no": strAttr(nil)}},
 					depKey([]schema.LabelDependent{lbl(0, "no\u00a0brk")}, nil): markerBody("m_nbsp", nil),
 				},
 				Address: &schema.BlockAddrSchema{
@@ -389,16 +389,21 @@ func Structures() []Entry {
 		want := func(t cty.Type) *schema.AttributeSchema {
 			return &schema.AttributeSchema{Constraint: schema.AnyExpression{OfType: t}, IsOptional: true}
 		}
+		// (declarations at the root, the consuming attributes inside a block: a declaration of the body the
+		// cursor is in is never offered)
 		return &schema.BodySchema{Attributes: map[string]*schema.AttributeSchema{
 			"narrow": decl(obj("name")), "exact": decl(obj("name", "port")), "wide": decl(obj("name", "port", "extra")),
 			"pair": decl(cty.Tuple([]cty.Type{cty.String, cty.String})), "strings": decl(cty.List(cty.String)), "str": decl(cty.String),
-			"want_obj": want(obj("name", "port")), "want_tuple": want(cty.Tuple([]cty.Type{cty.String, cty.String})), "want_list": want(cty.List(cty.String)),
-			"want_list_obj": want(cty.List(obj("name", "port"))),
-		}}
+		},
+			Blocks: map[string]*schema.BlockSchema{"use": {Body: &schema.BodySchema{Attributes: map[string]*schema.AttributeSchema{
+				"want_obj": want(obj("name", "port")), "want_tuple": want(cty.Tuple([]cty.Type{cty.String, cty.String})), "want_list": want(cty.List(cty.String)),
+				"want_list_obj": want(cty.List(obj("name", "port"))),
+				"ref_obj":       {Constraint: schema.Reference{OfType: obj("name", "port")}, IsOptional: true},
+			}}}}}
 	},
-		"narrow = { name = \"a\" }\nexact = { name = \"a\", port = \"1\" }\nwide = { name = \"a\", port = \"1\", extra = \"x\" }\npair = [\"a\", \"b\"]\nstrings = [\"a\", \"b\"]\nstr = \"s\"\nwant_obj = \n",
-		"narrow = { name = \"a\" }\nexact = { name = \"a\", port = \"1\" }\nwide = { name = \"a\", port = \"1\", extra = \"x\" }\npair = [\"a\", \"b\"]\nstrings = [\"a\", \"b\"]\nwant_tuple = \n",
-		"narrow = { name = \"a\" }\nexact = { name = \"a\", port = \"1\" }\nwide = { name = \"a\", port = \"1\", extra = \"x\" }\npair = [\"a\", \"b\"]\nstrings = [\"a\", \"b\"]\nwant_list = d.\nwant_list_obj = [d.]\n",
+		"narrow = { name = \"a\" }\nexact = { name = \"a\", port = \"1\" }\nwide = { name = \"a\", port = \"1\", extra = \"x\" }\npair = [\"a\", \"b\"]\nstrings = [\"a\", \"b\"]\nstr = \"s\"\nuse {\n  want_obj = \n}\n",
+		"narrow = { name = \"a\" }\nexact = { name = \"a\", port = \"1\" }\nwide = { name = \"a\", port = \"1\", extra = \"x\" }\npair = [\"a\", \"b\"]\nstrings = [\"a\", \"b\"]\nuse {\n  want_tuple = \n}\n",
+		"narrow = { name = \"a\" }\nexact = { name = \"a\", port = \"1\" }\nwide = { name = \"a\", port = \"1\", extra = \"x\" }\npair = [\"a\", \"b\"]\nstrings = [\"a\", \"b\"]\nuse {\n  want_list = d.\n  want_list_obj = [d.]\n  ref_obj = d.\n}\n",
 	)
 
 	// a body that enables count / for_each AND declares attributes of those names itself
@@ -892,6 +897,46 @@ func Structures() []Entry {
 		"resource \"aws\" \"a\" {\n  conn {\n    dynamic \"hop\" {\n      for_each = []\n      content {\n      }\n    }\n  }\n}\nresource \"zz\" \"u\" {\n  conn {\n    dynamic \"hop\" {\n      for_each = []\n      content {\n      }\n    }\n  }\n}\n",
 		// the shared nested block under the parent that enables dynamic blocks, then under the one that does not
 		"resource \"aws\" \"a\" {\n  setting {\n  }\n}\ndata \"aws\" {\n  setting {\n    dynamic \"rule\" {\n      for_each = []\n      content {\n      }\n    }\n  }\n}\n",
+	)
+
+	// a label value that only occurs in a key which also carries an attribute (no labels-only key beside it)
+	add("dep-label-attrkey", func() *schema.BodySchema {
+		return &schema.BodySchema{Blocks: map[string]*schema.BlockSchema{
+			"res": {Labels: []*schema.LabelSchema{{Name: "type", IsDepKey: true, Completable: true}, {Name: "name"}},
+				Body: &schema.BodySchema{Attributes: map[string]*schema.AttributeSchema{
+					"mode": {Constraint: schema.LiteralType{Type: cty.String}, IsOptional: true, IsDepKey: true}}},
+				DependentBody: map[schema.SchemaKey]*schema.BodySchema{
+					depKey([]schema.LabelDependent{lbl(0, "aws")}, nil):                                                                markerBody("m_aws", nil),
+					depKey([]schema.LabelDependent{lbl(0, "gcp")}, []schema.AttributeDependent{attrDep("mode", cty.StringVal("x"))}):   markerBody("m_gcp_x", nil),
+					depKey([]schema.LabelDependent{lbl(0, "gcp")}, []schema.AttributeDependent{attrDep("mode", cty.StringVal("y"))}):   markerBody("m_gcp_y", nil),
+					depKey([]schema.LabelDependent{lbl(0, "azure")}, []schema.AttributeDependent{attrDep("mode", cty.StringVal("x"))}): markerBody("m_az_x", nil),
+				}},
+		}}
+	},
+		"res \"\" \"n\" {\n}\nres \"g\" \"n\" {\n  mode = \"x\"\n  m_gcp_x = \"v\"\n}\nres \"gcp\" \"m\" {\n  mode = \"y\"\n  \n}\n",
+	)
+
+	// the dependent body brings extensions of its own: (a) without DynamicBlocks where the static body enables
+	// them, and a block type with a minimum; (b) DynamicBlocks enabled by the dependent body only
+	add("dep-own-ext", func() *schema.BodySchema {
+		return &schema.BodySchema{Blocks: map[string]*schema.BlockSchema{
+			"foo": {Labels: []*schema.LabelSchema{{Name: "type", IsDepKey: true}},
+				Body: &schema.BodySchema{Extensions: ext(false, false, true, false), Attributes: map[string]*schema.AttributeSchema{"st": strAttr(nil)}},
+				DependentBody: map[schema.SchemaKey]*schema.BodySchema{
+					depKey([]schema.LabelDependent{lbl(0, "a")}, nil): {Extensions: ext(true, false, false, false),
+						Blocks: map[string]*schema.BlockSchema{"one": {MinItems: 1, Body: &schema.BodySchema{Attributes: map[string]*schema.AttributeSchema{"x": strAttr(nil)}}}}},
+				}},
+			"bar": {Labels: []*schema.LabelSchema{{Name: "type", IsDepKey: true}},
+				Body: &schema.BodySchema{Attributes: map[string]*schema.AttributeSchema{"st": strAttr(nil)}},
+				DependentBody: map[schema.SchemaKey]*schema.BodySchema{
+					depKey([]schema.LabelDependent{lbl(0, "a")}, nil): {Extensions: ext(false, false, true, false),
+						Blocks: map[string]*schema.BlockSchema{"two": {Body: &schema.BodySchema{Attributes: map[string]*schema.AttributeSchema{"y": strAttr(nil)},
+							Blocks: map[string]*schema.BlockSchema{"deep": {Body: &schema.BodySchema{Attributes: map[string]*schema.AttributeSchema{"z": strAttr(nil)}}}}}}}},
+				}},
+		}}
+	},
+		"foo \"a\" {\n  dynamic \"one\" {\n    for_each = []\n    content {\n      x = \"v\"\n    }\n  }\n  count = 1\n}\nfoo \"a\" {\n  one {\n  }\n  \n}\nfoo \"a\" {\n}\n",
+		"bar \"a\" {\n  dynamic \"two\" {\n    for_each = []\n    content {\n      y = \"v\"\n      dynamic \"deep\" {\n        for_each = []\n        content {\n          z = \"w\"\n        }\n      }\n    }\n  }\n  two {\n    \n  }\n  \n}\n",
 	)
 
 	// --- required-field prefilling: snippets with many tab stops --------------------------------
